@@ -42,6 +42,9 @@ pub struct Step {
 #[derive(Clone, Debug, Hash, PartialEq, Eq, Serialize, Deserialize)]
 pub struct Case {
     pub steps: Vec<Step>,
+    /// true: the schedule runs in a program built against fpdec with `default-features = false`
+    #[serde(default)]
+    pub no_default_features: bool,
 }
 
 pub struct C19;
@@ -255,26 +258,53 @@ impl Prop for C19 {
     fn strategy(&self, _tier: Tier) -> BoxedStrategy<Case> {
         (1u8..=4)
             .prop_flat_map(|k| proptest::collection::vec((0u8..k, arb_op()), 1..=40))
-            .prop_map(|v| Case { steps: v.into_iter().map(|(thread, op)| Step { thread, op }).collect() })
+            .prop_map(|v| Case { steps: v.into_iter().map(|(thread, op)| Step { thread, op }).collect(), no_default_features: false })
+            .prop_flat_map(|c| (Just(c), proptest::bool::weighted(1.0 / 16.0)))
+            .prop_map(|(mut c, p)| {
+                c.no_default_features = p;
+                c
+            })
             .boxed()
     }
+    fn extra_coverage(&self, _tier: Tier) -> std::collections::BTreeMap<String, serde_json::Value> {
+        let mut m = std::collections::BTreeMap::new();
+        let r = match PROBE_BUILD.get() {
+            Some(ProbeBuild::Built(_)) => "program built against fpdec with default-features = false; schedules labelled config:no-default-features ran in it",
+            Some(ProbeBuild::NoSetDefault) => "fpdec with default-features = false has no RoundingMode::set_default: nothing to check there",
+            None => "not reached",
+        };
+        m.insert("no_default_features_program".into(), serde_json::Value::String(r.into()));
+        m
+    }
     fn mandatory_labels(&self, _tier: Tier) -> Vec<&'static str> {
-        vec!["cross-thread", "late-start", "get-after-set", "op:round", "op:div_rounded", "op:mul_rounded", "op:mul", "op:div", "op:fmt", "op:quantize", "op:checked_div", "op:checked_round", "op:panicking", "exit-probe", "exit-probe:custom-mode", "threads=1", "threads>=3", "mode-sensitive"]
+        vec!["cross-thread", "late-start", "get-after-set", "op:round", "op:div_rounded", "op:mul_rounded", "op:mul", "op:div", "op:fmt", "op:quantize", "op:checked_div", "op:checked_round", "op:panicking", "exit-probe", "exit-probe:custom-mode", "threads=1", "threads>=3", "mode-sensitive", "config:no-default-features"]
     }
     fn builtin_corpus(&self) -> Vec<Case> {
         let s = |t: u8, op: Op| Step { thread: t, op };
         vec![
-            Case { steps: vec![s(0, Op::Get)] },
-            Case { steps: vec![s(0, Op::Set(7)), s(1, Op::Get), s(1, Op::Round { x: D::new(25, 1), n: 0 }), s(0, Op::Round { x: D::new(25, 1), n: 0 })] },
-            Case { steps: vec![s(0, Op::Set(2)), s(0, Op::Get), s(1, Op::Set(6)), s(0, Op::Round { x: D::new(35, 1), n: 0 }), s(1, Op::Round { x: D::new(35, 1), n: 0 }), s(2, Op::Round { x: D::new(25, 1), n: 0 })] },
-            Case { steps: vec![s(1, Op::Set(1)), s(0, Op::Fmt { x: D::new(-25, 1), prec: 0 }), s(1, Op::Fmt { x: D::new(-25, 1), prec: 0 }), s(0, Op::Div { x: D::new(1, 0), y: D::new(3, 0) }), s(1, Op::Div { x: D::new(1, 0), y: D::new(3, 0) })] },
+            Case { steps: vec![s(0, Op::Get)], no_default_features: false },
+            Case { steps: vec![s(0, Op::Set(7)), s(1, Op::Get), s(1, Op::Round { x: D::new(25, 1), n: 0 }), s(1, Op::Set(2)), s(1, Op::Round { x: D::new(29, 1), n: 0 }), s(0, Op::Get), s(0, Op::Round { x: D::new(21, 1), n: 0 })], no_default_features: true },
+            Case { steps: vec![s(0, Op::Set(7)), s(1, Op::Get), s(1, Op::Round { x: D::new(25, 1), n: 0 }), s(0, Op::Round { x: D::new(25, 1), n: 0 })], no_default_features: false },
+            Case { steps: vec![s(0, Op::Set(2)), s(0, Op::Get), s(1, Op::Set(6)), s(0, Op::Round { x: D::new(35, 1), n: 0 }), s(1, Op::Round { x: D::new(35, 1), n: 0 }), s(2, Op::Round { x: D::new(25, 1), n: 0 })], no_default_features: false },
+            Case { steps: vec![s(1, Op::Set(1)), s(0, Op::Fmt { x: D::new(-25, 1), prec: 0 }), s(1, Op::Fmt { x: D::new(-25, 1), prec: 0 }), s(0, Op::Div { x: D::new(1, 0), y: D::new(3, 0) }), s(1, Op::Div { x: D::new(1, 0), y: D::new(3, 0) })], no_default_features: false },
         ]
     }
 
     fn check(&self, case: &Case, ctx: &mut Ctx) {
         // every schedule runs in a fresh process: process-wide state that a
         // defective implementation might keep cannot leak between cases
-        let results = run_in_fresh_process(case);
+        let results = if case.no_default_features {
+            ctx.label("config:no-default-features");
+            match run_in_probe(case) {
+                Some(r) => r,
+                None => {
+                    ctx.label("config:no-default-features:no-set_default");
+                    return;
+                }
+            }
+        } else {
+            run_in_fresh_process(case)
+        };
         let mut model: BTreeMap<u8, Mode> = BTreeMap::new();
         let mut any_set = false;
         let mut last_set_by: Option<u8> = None;
@@ -432,10 +462,12 @@ impl Prop for C19 {
                 let leaked = model.iter().any(|(k, v)| *k != t && *v != md);
                 let sig = match &st.op {
                     Op::Get if md == Mode::HalfEven && !model_was_set(&case.steps[..idx], t) => "C19/initial-mode",
+                    _ if case.no_default_features && leaked => "C19/mode-not-per-thread-without-default-features",
                     _ if leaked => "C19/mode-not-per-thread",
                     _ => "C19/wrong-result-under-own-mode",
                 };
-                ctx.fail(sig, format!("step {idx} of {:?}: thread {t} (model mode {}) {:?}: expected {want}, observed {got}", case.steps, md.name(), st.op));
+                let cfg = if case.no_default_features { "[fpdec built with default-features = false] " } else { "" };
+                ctx.fail(sig, format!("{cfg}step {idx} of {:?}: thread {t} (model mode {}) {:?}: expected {want}, observed {got}", case.steps, md.name(), st.op));
                 break;
             }
         }
@@ -474,4 +506,198 @@ impl Prop for C19 {
 
 fn model_was_set(steps: &[Step], t: u8) -> bool {
     steps.iter().any(|s| s.thread == t && matches!(s.op, Op::Set(_)))
+}
+
+// ---------------------------------------------------------------------------
+// second configuration: the same schedules against fpdec built with
+// `default-features = false` (a generated program compiled by cargo, like C18's programs)
+
+const PROBE_MAIN: &str = r#"// generated by /verif (C19): executes one lock-step schedule read from stdin
+use fpdec::{CheckedDiv, Decimal, DivRounded, MulRounded, Quantize, Round, RoundingMode};
+use std::collections::BTreeMap;
+use std::panic::{catch_unwind, AssertUnwindSafe};
+use std::sync::mpsc::{channel, Receiver, Sender};
+
+const MODES: [RoundingMode; 8] = [
+    RoundingMode::Round05Up,
+    RoundingMode::RoundCeiling,
+    RoundingMode::RoundDown,
+    RoundingMode::RoundFloor,
+    RoundingMode::RoundHalfDown,
+    RoundingMode::RoundHalfEven,
+    RoundingMode::RoundHalfUp,
+    RoundingMode::RoundUp,
+];
+
+fn val(f: impl FnOnce() -> Decimal) -> String {
+    match catch_unwind(AssertUnwindSafe(f)) {
+        Ok(d) => format!("Value({} @{})", d.coefficient(), d.n_frac_digits()),
+        Err(_) => "Panic(x)".to_string(),
+    }
+}
+fn opt(f: impl FnOnce() -> Option<Decimal>) -> String {
+    match catch_unwind(AssertUnwindSafe(f)) {
+        Ok(Some(d)) => format!("Value({} @{})", d.coefficient(), d.n_frac_digits()),
+        Ok(None) => "None".to_string(),
+        Err(_) => "Panic(x)".to_string(),
+    }
+}
+
+fn exec(f: &[String]) -> String {
+    let kind = f[1].as_str();
+    let x = Decimal::new_raw(f[2].parse().unwrap(), f[3].parse().unwrap());
+    let y = Decimal::new_raw(f[4].parse().unwrap(), f[5].parse().unwrap());
+    let n: i64 = f[6].parse().unwrap();
+    match kind {
+        "set" => {
+            RoundingMode::set_default(MODES[n as usize]);
+            "set".to_string()
+        }
+        "get" => format!("mode {}", MODES.iter().position(|m| *m == RoundingMode::default()).unwrap()),
+        "round" => val(|| x.round(n as i8)),
+        "cround" => opt(|| x.checked_round(n as i8)),
+        "divr" => val(|| x.div_rounded(y, n as u8)),
+        "mulr" => val(|| x.mul_rounded(y, n as u8)),
+        "mul" => val(|| x * y),
+        "div" => val(|| x / y),
+        "cdiv" => opt(|| x.checked_div(y)),
+        "quant" => val(|| x.quantize(y)),
+        "fmt" => match catch_unwind(AssertUnwindSafe(|| format!("{:.*}", n as usize, x))) {
+            Ok(s) => format!("str {s}"),
+            Err(_) => "Panic(x)".to_string(),
+        },
+        "panic" => {
+            let big = Decimal::MAX;
+            let r = match n % 4 {
+                0 => val(|| x / Decimal::ZERO),
+                1 => val(|| big + big),
+                2 => val(|| x.div_rounded(Decimal::ZERO, 2)),
+                _ => val(|| big.mul_rounded(big, 0)),
+            };
+            if r.starts_with("Panic") { "panicked".to_string() } else { r }
+        }
+        _ => "unknown op".to_string(),
+    }
+}
+
+fn worker(rx: Receiver<Vec<String>>, tx: Sender<String>) {
+    while let Ok(f) = rx.recv() {
+        if tx.send(exec(&f)).is_err() {
+            break;
+        }
+    }
+}
+
+fn main() {
+    std::panic::set_hook(Box::new(|_| {}));
+    let mut input = String::new();
+    std::io::Read::read_to_string(&mut std::io::stdin(), &mut input).unwrap();
+    let mut chans: BTreeMap<String, (Sender<Vec<String>>, Receiver<String>)> = BTreeMap::new();
+    let mut out = String::new();
+    for line in input.lines() {
+        let f: Vec<String> = line.split(' ').map(|s| s.to_string()).collect();
+        if f.len() != 7 {
+            continue;
+        }
+        let t = f[0].clone();
+        if !chans.contains_key(&t) {
+            let (ctx_tx, ctx_rx) = channel();
+            let (res_tx, res_rx) = channel();
+            std::thread::spawn(move || worker(ctx_rx, res_tx));
+            chans.insert(t.clone(), (ctx_tx, res_rx));
+        }
+        let (tx, rx) = chans.get(&t).unwrap();
+        tx.send(f).unwrap();
+        out.push_str(&rx.recv().unwrap_or_else(|_| "worker died".to_string()).replace('\n', " "));
+        out.push('\n');
+    }
+    print!("{out}");
+}
+"#;
+
+#[derive(Clone, Debug)]
+enum ProbeBuild {
+    /// path of the executable
+    Built(std::path::PathBuf),
+    /// RoundingMode::set_default does not exist in that configuration
+    NoSetDefault,
+}
+
+static PROBE_BUILD: std::sync::OnceLock<ProbeBuild> = std::sync::OnceLock::new();
+
+fn probe_build() -> ProbeBuild {
+    PROBE_BUILD
+        .get_or_init(|| {
+            use std::process::Command;
+            let root = std::path::PathBuf::from(std::env::var("VERIF_ROOT").unwrap_or_else(|_| "/verif".into()));
+            let base = root.join("harness/target/c19probe");
+            let proj = base.join("proj");
+            let inconclusive = |m: String| -> ! {
+                println!("INCONCLUSIVE: C19 no-default-features program: {m} (not a verdict about the property)");
+                std::process::exit(2)
+            };
+            if let Err(e) = std::fs::create_dir_all(proj.join("src")) {
+                inconclusive(format!("cannot create {}: {e}", proj.display()));
+            }
+            let manifest = "[package]\nname = \"c19probe\"\nversion = \"0.0.0\"\nedition = \"2021\"\n\n[dependencies]\nfpdec = { path = \"/repo\", default-features = false }\n\n[workspace]\n\n[profile.dev]\ndebug = false\nincremental = false\n";
+            let write_if_changed = |p: std::path::PathBuf, c: &str| {
+                if std::fs::read_to_string(&p).map(|o| o != c).unwrap_or(true) {
+                    std::fs::write(&p, c).unwrap_or_else(|e| inconclusive(format!("cannot write {}: {e}", p.display())));
+                }
+            };
+            write_if_changed(proj.join("Cargo.toml"), manifest);
+            write_if_changed(proj.join("src/main.rs"), PROBE_MAIN);
+            let _ = std::fs::copy("/repo/Cargo.lock", proj.join("Cargo.lock"));
+            let out = Command::new("cargo")
+                .args(["build", "--offline", "--quiet"])
+                .current_dir(&proj)
+                .env("CARGO_TARGET_DIR", base.join("target"))
+                .env("CARGO_NET_OFFLINE", "true")
+                .env_remove("RUSTFLAGS")
+                .output()
+                .unwrap_or_else(|e| inconclusive(format!("cannot run cargo: {e}")));
+            if !out.status.success() {
+                let err = String::from_utf8_lossy(&out.stderr).to_string();
+                if err.contains("set_default") && err.contains("E0599") {
+                    return ProbeBuild::NoSetDefault;
+                }
+                inconclusive(format!("does not build:\n{}", err.chars().take(1500).collect::<String>()));
+            }
+            ProbeBuild::Built(base.join("target/debug/c19probe"))
+        })
+        .clone()
+}
+
+fn probe_line(st: &Step) -> String {
+    let z = D::new(0, 0);
+    let (k, x, y, n): (&str, D, D, i64) = match &st.op {
+        Op::Set(m) => ("set", z, z, *m as i64),
+        Op::Get => ("get", z, z, 0),
+        Op::Round { x, n } => ("round", *x, z, *n as i64),
+        Op::CheckedRound { x, n } => ("cround", *x, z, *n as i64),
+        Op::DivRounded { x, y, n } => ("divr", *x, *y, *n as i64),
+        Op::MulRounded { x, y, n } => ("mulr", *x, *y, *n as i64),
+        Op::Mul { x, y } => ("mul", *x, *y, 0),
+        Op::Div { x, y } => ("div", *x, *y, 0),
+        Op::CheckedDiv { x, y } => ("cdiv", *x, *y, 0),
+        Op::Quantize { x, q } => ("quant", *x, *q, 0),
+        Op::Fmt { x, prec } => ("fmt", *x, z, *prec as i64),
+        Op::Panicking { x, kind } => ("panic", *x, z, *kind as i64),
+    };
+    format!("{} {k} {} {} {} {} {n}\n", st.thread, x.c, x.s, y.c, y.s)
+}
+
+/// None: set_default does not exist without default features (nothing to check)
+fn run_in_probe(case: &Case) -> Option<Vec<String>> {
+    use std::io::Write;
+    use std::process::{Command, Stdio};
+    let exe = match probe_build() {
+        ProbeBuild::Built(p) => p,
+        ProbeBuild::NoSetDefault => return None,
+    };
+    let mut child = Command::new(exe).stdin(Stdio::piped()).stdout(Stdio::piped()).stderr(Stdio::null()).spawn().expect("spawn c19probe");
+    let text: String = case.steps.iter().map(probe_line).collect();
+    child.stdin.take().unwrap().write_all(text.as_bytes()).expect("write schedule");
+    let out = child.wait_with_output().expect("wait c19probe");
+    Some(String::from_utf8_lossy(&out.stdout).lines().map(|l| l.to_string()).collect())
 }
